@@ -1,5 +1,6 @@
 import Amgcl.Proofs.DistAmgIndep
 import Amgcl.Proofs.DistSort
+import Amgcl.Proofs.DistProductWF
 /-!
 The output of the hierarchy constructor `DistAmg.dinit` (`mpi::amg::init` without repartitioning) satisfies the
 hypotheses `DHierOK` / `DHierFull` of the cycle theorems (C12b), for every coarsening policy that returns well-formed
@@ -38,13 +39,14 @@ theorem distOK_sortRows (Ds : List (DistMat K)) (rp cp : List Nat) (h : DistOK D
 
 /-- what is assumed of the coarsening policy.  `Good lvl As p` describes the level inputs the policy is meant for (e.g.
 `True` for a coarsening that works on every matrix; `p = parts[lvl]` for a policy handing out GIVEN transfer operators);
-it must hold for the sorted finest matrix and be propagated by the coarse operator.  On such an input the policy
+it must hold for the sorted finest matrix and be propagated by the coarse operator.  On such an input with more than
+`ce = coarse_enough` rows (the only ones `init` coarsens) the policy
 returns well-formed `P` (rows by the level's partition, columns by the new partition `np`), `R` (the other way round),
 a non-empty coarse level, and a well-formed coarse operator partitioned by `np`. -/
-structure PolicyOK (pol : DPolicy K) (Good : Nat → List (DistMat K) → List Nat → Prop) : Prop where
-  transfer : ∀ lvl As p P R np, Good lvl As p → DistOK As p p → pol.transfer lvl As p = (P, R, np) →
+structure PolicyOK (pol : DPolicy K) (Good : Nat → List (DistMat K) → List Nat → Prop) (ce : Nat) : Prop where
+  transfer : ∀ lvl As p P R np, Good lvl As p → ce < p.sum → DistOK As p p → pol.transfer lvl As p = (P, R, np) →
     DistOK P p np ∧ DistOK R np p ∧ np.sum ≠ 0
-  coarse : ∀ lvl As p P R np, Good lvl As p → DistOK As p p → pol.transfer lvl As p = (P, R, np) →
+  coarse : ∀ lvl As p P R np, Good lvl As p → ce < p.sum → DistOK As p p → pol.transfer lvl As p = (P, R, np) →
     DistOK (pol.coarseOp As (distSortRows P) (distSortRows R) p np) np np ∧
     Good (lvl + 1) (distSortRows (pol.coarseOp As (distSortRows P) (distSortRows R) p np)) np
 
@@ -137,7 +139,7 @@ def LoopPost (prm : Amg.Params) (dsm : DSmoother K S) (direct : CRS K → Vec K 
        (prm.coarse_enough < pc.sum ∧ DHierOK dsm direct lvls ∧ DHierFull lvls))
 
 theorem dinitLoop_ok (prm : Amg.Params) (pol : DPolicy K) (dsm : DSmoother K S) (directOk : CRS K → Bool)
-    (direct : CRS K → Vec K → Vec K) (Good : Nat → List (DistMat K) → List Nat → Prop) (hpol : PolicyOK pol Good)
+    (direct : CRS K → Vec K → Vec K) (Good : Nat → List (DistMat K) → List Nat → Prop) (hpol : PolicyOK pol Good prm.coarse_enough)
     (hdir : ∀ M f, (direct M f).size = f.size) :
     ∀ (fuel : Nat) (levels : List (DLevel K S)) (A : List (DistMat K)) (part : List Nat)
       (res : List (DLevel K S) × Option (List (DistMat K) × List Nat)),
@@ -169,8 +171,8 @@ theorem dinitLoop_ok (prm : Amg.Params) (pol : DPolicy K) (dsm : DSmoother K S) 
             dHierFull_snoc lv hlast levels hI⟩⟩
         · rcases htr : pol.transfer levels.length As part with ⟨P, R, np⟩
           simp only [hmax, if_false, htr] at h
-          obtain ⟨hPok, hRok, hne⟩ := hpol.transfer _ As part P R np hG hAs htr
-          obtain ⟨hCok, hCg⟩ := hpol.coarse _ As part P R np hG hAs htr
+          obtain ⟨hPok, hRok, hne⟩ := hpol.transfer _ As part P R np hG hce hAs htr
+          obtain ⟨hCok, hCg⟩ := hpol.coarse _ As part P R np hG hce hAs htr
           simp only [hne, if_false] at h
           have hPs := distOK_sortRows P part np hPok
           have hRs := distOK_sortRows R np part hRok
@@ -196,7 +198,7 @@ operators whose partitions chain, and every serial coarse solver that returns ve
 side, a hierarchy built by the model constructor is `DHierOK` and `DHierFull` — so `dist_amg_cycle_eq_gathered`,
 `dist_apply_scratch_indep`, `mpi_amg_setup` apply to it without further assumptions. -/
 theorem dinit_ok (prm : Amg.Params) (pol : DPolicy K) (dsm : DSmoother K S) (directOk : CRS K → Bool)
-    (direct : CRS K → Vec K → Vec K) (Good : Nat → List (DistMat K) → List Nat → Prop) (hpol : PolicyOK pol Good)
+    (direct : CRS K → Vec K → Vec K) (Good : Nat → List (DistMat K) → List Nat → Prop) (hpol : PolicyOK pol Good prm.coarse_enough)
     (hdir : ∀ M f, (direct M f).size = f.size)
     (A : List (DistMat K)) (part : List Nat) (hA : DistOK A part part) (hG : Good 0 (distSortRows A) part)
     (dls : List (DLevel K S))
@@ -236,6 +238,41 @@ theorem dinit_ok (prm : Amg.Params) (pol : DPolicy K) (dsm : DSmoother K S) (dir
               dHierOKTo_snoc dsm direct lv pc lvls (by rw [hpart]; exact hto) (hOK pc)
             exact ⟨dHierOK_of_to dsm direct lv pc hP hR lvls hto', dHierFull_snoc lv hlast lvls hin⟩
         · omega
+
+/-! ### the Galerkin operator and the policy of given transfer operators -/
+
+/-- `coarsening::detail::galerkin(A, P, R) = R·(A·P)` through `mpi::product` is well formed -/
+theorem distOK_galerkin (As P R : List (DistMat K)) (p np : List Nat) (hA : DistOK As p p) (hP : DistOK P p np)
+    (hR : DistOK R np p) : DistOK (dgalerkin As P R p np) np np :=
+  distOK_product R _ np p np hR (distOK_product As P p p np hA hP)
+
+/-- the policy that hands out the given operators `trs[l] = (P_l, R_l)` distributed by `parts[l]`, `parts[l+1]` is
+`PolicyOK` whenever the shapes chain, no given coarse level is empty, and every level that `init` still coarsens
+(more than `ce` rows) has its operators -/
+theorem givenPolicy_ok (trs : List (CRS K × CRS K)) (parts : List (List Nat)) (ce : Nat)
+    (hshape : ∀ l P R, trs[l]? = some (P, R) →
+      PartOK P (parts.getD l []) (parts.getD (l + 1) []) ∧ PartOK R (parts.getD (l + 1) []) (parts.getD l []) ∧
+      (parts.getD (l + 1) []).sum ≠ 0)
+    (hlast : ∀ l, ce < (parts.getD l []).sum → l < trs.length) :
+    PolicyOK (givenPolicy trs parts) (fun l _ p => p = parts.getD l []) ce := by
+  have key : ∀ lvl As p P R np, p = parts.getD lvl [] → ce < p.sum →
+      (givenPolicy trs parts).transfer lvl As p = (P, R, np) →
+      DistOK P p np ∧ DistOK R np p ∧ np.sum ≠ 0 ∧ np = parts.getD (lvl + 1) [] := by
+    intro lvl As p P R np hp hce htr
+    have hl : lvl < trs.length := hlast lvl (by rw [← hp]; exact hce)
+    have hget : trs[lvl]? = some trs[lvl] := List.getElem?_eq_getElem hl
+    rcases hpr : trs[lvl] with ⟨Pm, Rm⟩
+    rw [hpr] at hget
+    obtain ⟨s1, s2, s3⟩ := hshape lvl Pm Rm hget
+    simp only [givenPolicy, hget, Prod.mk.injEq] at htr
+    obtain ⟨e1, e2, e3⟩ := htr
+    subst e1 e2 e3 hp
+    exact ⟨distOK_split _ _ _ s1, distOK_split _ _ _ s2, s3, rfl⟩
+  refine ⟨fun lvl As p P R np hG hce _ htr => ?_, fun lvl As p P R np hG hce hAs htr => ?_⟩
+  · obtain ⟨a, b, c, _⟩ := key lvl As p P R np hG hce htr
+    exact ⟨a, b, c⟩
+  · obtain ⟨a, b, _, d⟩ := key lvl As p P R np hG hce htr
+    exact ⟨distOK_galerkin As _ _ p np hAs (distOK_sortRows _ _ _ a) (distOK_sortRows _ _ _ b), d⟩
 
 end
 end Amgcl.DistAmg
